@@ -63,6 +63,66 @@ Theorem C15_payload : forall a b raw f l r,
   a < b /\ f = a + 1 /\ l = b /\ i64_ok f /\ i64_ok l /\ f <= l /\ conv_shards raw = Some r.
 Proof. exact payload_check_ok. Qed.
 
+(* the declarative reading of C15_lookup.
+   LATEST WINS: the payload learnt last for a token answers it (with the maintenance events that
+   followed applied to it) as long as no later accepted payload of the table overlaps its range *)
+Theorem C15_latest_wins : forall pre post k a b raw known tok s,
+  Forall op_i64 (pre ++ Learn k a b raw known :: post) ->
+  run (pre ++ Learn k a b raw known :: post) = Some s ->
+  spec_payload_ok a b raw = true -> a < tok <= b ->
+  forallb (fun o => negb (accepted_overlap k (a + 1) b o)) post = true ->
+  lookup s k tok = option_map e_reps (spec_maintain_all k post (spec_entry_of a b raw known)).
+Proof. exact latest_wins. Qed.
+
+(* NOTHING RATHER THAN STALE DATA: once an accepted payload overlapped the answering tablet without
+   covering the token, the token is answered by nothing until a payload covering it arrives *)
+Theorem C15_stale_none : forall pre post k a b raw known tok s0 t s,
+  Forall op_i64 (pre ++ Learn k a b raw known :: post) ->
+  run pre = Some s0 -> lookup_tablet s0 k tok = Some t ->
+  spec_payload_ok a b raw = true -> ~ (a < tok <= b) ->
+  ranges_overlap (a + 1) b (t_first t) (t_last t) = true ->
+  forallb (fun o => negb (covering_learn k tok o)) post = true ->
+  run (pre ++ Learn k a b raw known :: post) = Some s ->
+  lookup s k tok = None.
+Proof. exact stale_none. Qed.
+
+Theorem C15_never_learnt : forall hist k tok s,
+  Forall op_i64 hist -> run hist = Some s ->
+  forallb (fun o => negb (covering_learn k tok o)) hist = true -> lookup s k tok = None.
+Proof. exact never_learnt. Qed.
+
+(* after a maintenance call no answering tablet has unknown replicas, a replica on a removed node
+   or the stale object of a recreated node, and its table is a table/view of a tablet keyspace *)
+Theorem C15_maint_clean : forall hist kss removed current recreated s k tok t,
+  Forall op_i64 hist -> run (hist ++ [Maintain kss removed current recreated]) = Some s ->
+  lookup_tablet s k tok = Some t ->
+  keep_table kss k = true /\ t_failed t = None /\
+  (forall r, In r (r_all (t_reps t)) -> memN (host (fst r)) removed = false) /\
+  (forall r n', In r (r_all (t_reps t)) -> find_node recreated (host (fst r)) = Some n' -> fst r = n').
+Proof. exact maint_clean. Qed.
+
+(* the has_unknown_replicas flags are never falsely false (they may be falsely true) *)
+Theorem C15_flags : forall hist s,
+  Forall op_i64 hist -> run hist = Some s ->
+  (forall k tt t, find_table s k = Some tt -> tt_flag tt = false -> In t (tt_list tt) -> t_failed t = None) /\
+  (i_flag s = false -> forall k tt, find_table s k = Some tt -> tt_flag tt = false).
+Proof. exact run_flags. Qed.
+
+(* a table has an entry (possibly without tablets) iff a payload was accepted for it since the
+   last maintenance or the last maintenance found it among the tables/views of a tablet keyspace
+   (keyspace names of a schema are unique: they are the keys of a HashMap) *)
+Theorem C15_present : forall hist s k,
+  Forall op_i64 hist -> Forall op_maps_ok hist -> run hist = Some s ->
+  is_some (find_table s k) = spec_present hist k.
+Proof. exact run_present. Qed.
+
+(* the binary search that slice::partition_point runs returns, on the partitioned slices of the
+   invariant, the index the model uses *)
+Theorem C15_bsearch : forall l x, tablets_inv l ->
+  partition_point_bs (fun t => t_last t <? x) l = partition_point (fun t => t_last t <? x) l /\
+  partition_point_bs (fun t => t_first t <=? x) l = partition_point (fun t => t_first t <=? x) l.
+Proof. exact partition_point_bs_eq. Qed.
+
 (* non-vacuity: concrete histories meeting the hypotheses, with non-trivial outcomes *)
 Definition ex_n1 := mkNode 1 0 (Some 0%N).
 Definition ex_n2 := mkNode 2 0 (Some 1%N).
@@ -103,6 +163,24 @@ Example C15_ex_payload :
   payload_check 0 1 [(7%N, -1)] = Err ShardNum.
 Proof. repeat split; vm_compute; reflexivity. Qed.
 
+Example C15_ex_declarative :
+  let l1 := Learn (1, 1)%N 0 10 [(1%N, 0)] [ex_n1; ex_n2] in
+  let m := Maintain ex_schema [] [ex_n1'; ex_n2] [ex_n1'] in
+  let l2 := Learn (1, 1)%N 10 20 [(2%N, 0)] [ex_n1'; ex_n2] in
+  let l3 := Learn (1, 1)%N 7 15 [(2%N, 1)] [ex_n1'; ex_n2] in
+  (* latest wins, through a maintenance event and a touching (non-overlapping) insert *)
+  forallb (fun o => negb (accepted_overlap (1, 1)%N (0 + 1) 10 o)) [m; l2] = true /\
+  spec_lookup [l1; m; l2] (1, 1)%N 10 = Some [(ex_n1', 0%N)] /\
+  (* stale: l3 overlaps [1,10] without covering 5 *)
+  spec_lookup [l1; m; l2; l3] (1, 1)%N 5 = None /\ spec_lookup [l1; m; l2; l3] (1, 1)%N 8 = Some [(ex_n2, 1%N)] /\
+  spec_present [l1; m; l2; l3] (1, 1)%N = true /\ spec_present [l1; Maintain [] [] [] []] (1, 1)%N = false /\
+  Forall op_maps_ok [l1; m; l2; l3].
+Proof. repeat split; try (vm_compute; reflexivity). repeat constructor; cbn; intuition discriminate. Qed.
+Example C15_ex_bsearch :
+  partition_point_bs (fun x => x <? 5) [1; 2; 3; 4; 7; 9; 11] = 4%nat /\
+  partition_point_bs (fun x => x <? 5) [7] = 0%nat /\ partition_point_bs (fun x => x <? 5) ([] : list Z) = 0%nat.
+Proof. repeat split; vm_compute; reflexivity. Qed.
+
 Print Assumptions C15_no_panic.
 Print Assumptions C15_inv.
 Print Assumptions C15_every_step.
@@ -113,3 +191,10 @@ Print Assumptions C15_lookup_covers.
 Print Assumptions C15_dc.
 Print Assumptions C15_dc_spec.
 Print Assumptions C15_payload.
+Print Assumptions C15_latest_wins.
+Print Assumptions C15_stale_none.
+Print Assumptions C15_never_learnt.
+Print Assumptions C15_maint_clean.
+Print Assumptions C15_flags.
+Print Assumptions C15_present.
+Print Assumptions C15_bsearch.
